@@ -317,6 +317,37 @@ func (sessScenario) Gen(r *Rng, tier string, opts map[string]string) interface{}
 		p.Neighbor = []nbOp{{K: "sleep", N: 1}, {K: "scribble", N: 3, Side: 1}, {K: "sleep", N: 5}, {K: "scribble", N: 3, Side: 1}, {K: "sleep", N: 20}, {K: "scribble", N: 3, Side: 1}}
 		return p
 	}
+	if prop == "C05" && r.Chance(1, 12) {
+		// sender crowd: several writers whose messages do not fit any slice class (socket fallback, through the send
+		// loop) next to writers of small shared-memory messages (polling events), a socket buffer of a few bytes and a
+		// send channel of one slot: wake-ups are produced while the connection is busy and its channel is full
+		big := 300 + r.Intn(200)
+		p.Cfg.Slices = [][2]uint32{{64, 50}, {256, 50}}
+		p.Cfg.QueueCap = uint32(r.Pick(2, 8, 64))
+		p.Cfg.SockBuf = r.Pick(16, 64, 512)
+		p.Cfg.Spurious = 0
+		p.Faulty = false
+		p.Accept = false
+		p.Sim.ChanCap = 1
+		nbig, nsmall := 2+r.Intn(2), 1+r.Intn(2)
+		for i := 0; i < nbig+nsmall; i++ {
+			var sp streamPlan
+			total := 0
+			for j := 0; j < 3+r.Intn(4); j++ {
+				if i < nbig {
+					sp.C2S.W = append(sp.C2S.W, wOp{K: "msg", Pieces: []piece{{K: "rsv", N: big}}})
+					total += big
+				} else {
+					n := 1 + r.Intn(40)
+					sp.C2S.W = append(sp.C2S.W, wOp{K: "msg", Pieces: []piece{{K: "wb", N: n}}})
+					total += n
+				}
+			}
+			sp.C2S.R = []rOp{{K: "deadline", N: 30000}, {K: "rb", N: total}, {K: "release"}}
+			p.Streams = append(p.Streams, sp)
+		}
+		return p
+	}
 	burst := prop == "C05" && r.Chance(1, 20)
 	if burst {
 		// thousands of queue elements produced while the consumer is off the CPU, drained in one go
@@ -453,6 +484,12 @@ func (sessScenario) Gen(r *Rng, tier string, opts map[string]string) interface{}
 			p.Chaos = append(p.Chaos, nbOp{K: "sleep", N: r.Pick(0, 1, 5, 50)})
 			p.Chaos = append(p.Chaos, nbOp{K: "stall", N: r.Pick(5, 50, 150, 400), Side: r.Intn(2)})
 		}
+	}
+	if prop == "C05" && !p.Faulty && r.Chance(1, 3) {
+		// tuning knob: the send channel of a session holds 4096 events in production, which no simulated population
+		// fills; with 1-4 slots the paths taken when it is full run. Only in runs without stalls or session loss: a
+		// sender parked on a tiny channel of a session that has gone away would be a hang production cannot have.
+		p.Sim.ChanCap = r.Pick(1, 2, 4)
 	}
 	return p
 }
